@@ -530,6 +530,8 @@ class Interp:
             return Opaque('unary', [v])
         if isinstance(v, NDArr):
             return self.arr_op('neg', v, None, n)
+        if isinstance(n.op, ast.USub) and isinstance(v, Vec):
+            return Vec(-x for x in v)
         if isinstance(n.op, ast.USub):
             return -v
         if isinstance(n.op, ast.UAdd):
@@ -859,6 +861,8 @@ class Interp:
                 return Opaque('dataarray.' + attr)
             return LibFn('dataarray.' + attr, bound=v)
         if isinstance(v, NDArr):
+            if attr in ('data', 'values'):
+                return v                    # (xarray .loc[...] views evaluate to plain arrays here: .data is the array itself)
             if attr in ('real', 'imag', 'T', 'flat'):
                 return NDArr(v.store, view=attr)
             if attr == 'dtype' and v.dtype is not None:
@@ -1154,6 +1158,8 @@ class Interp:
             ctx.event('call', name=q, args=([clo.self_obj] if clo.self_obj is not None else []) + list(args),
                       kwargs=kwargs, line=getattr(node, 'lineno', 0))
             return ctx.summaries[q](self, ([clo.self_obj] if clo.self_obj is not None else []) + list(args), kwargs, node)
+        if q:
+            ctx.event('call_inlined', name=q, args=list(args), kwargs=dict(kwargs), self_obj=clo.self_obj, line=getattr(node, 'lineno', 0))
         env = dict(clo.env)
         a = fn.args
         params = [p.arg for p in a.args]
